@@ -79,6 +79,7 @@ THEOREMS = [
 MODULES = ["Cppcheck.Props.C31"]
 
 KEY_SPWRAP = "simplifypath-wrap-above-root"
+KEY_SHORTCUT = "pathmatch-shortcut-outside-rule"
 
 
 def hx(b):
@@ -215,6 +216,9 @@ def gen_pm_cases(rng, n):
         syn = "w" if rng.random() < 0.12 else "u"
         if syn == "w" and rng.random() < 0.5:
             pat = pat.replace(b"/", b"\\") if rng.random() < 0.5 else pat.swapcase()
+        if rng.random() < 0.1:
+            # the `pattern == path` shortcut (and its one-character neighbours below)
+            path = pat
         g = []
         for mode in ("r", "d"):
             g.append((syn, mode, pat, path, base))
@@ -527,6 +531,11 @@ def classify_pm(d, impl, model):
         return "premise:windows-open-root"
     if "e" in ks:
         return "premise:relative-escape"
+    # the `pattern == path` shortcut of the code answers true where the rule says false: only for a pattern spelled exactly
+    # like the path that is neither absolute nor base-relative, with a non-empty relative base path or (windows syntax) a
+    # root of its own (FastPathOk false) - proved: pathMatch_shortcut_counterexample_*
+    if d.get("fp") == "0" and impl == "1" and d["spec"] == "0":
+        return KEY_SHORTCUT
     return None
 
 
@@ -555,6 +564,8 @@ def check_pm(ctx, res, exe, drv, groups, name):
         res.count("pm:glob" if any(ch in c[2] for ch in b"*?") else "pm:literal")
         if d["ok"] == "1":
             res.count("pm:inside-theorem-hypotheses")
+        if c[2] == c[3]:
+            res.count("pm:pattern-equals-path")
         if i_ == d["spec"]:
             continue
         key = classify_pm(d, i_, m_)
